@@ -150,6 +150,12 @@ def run_check(pid, tier, seed, replay=None):
             if len(items) > cap:
                 step = len(items) / float(cap)
                 items = [items[int(i * step)] for i in range(cap)]
+            # plus grammar-generated documents combining every modelled feature (tools/docfuzz.py)
+            import docfuzz
+            frng = rng.fork('docfuzz')
+            nf = 1500 if tier == 'quick' else 40000
+            items += [docfuzz.gen(frng) for _ in range(nf)]
+            stats['distribution']['doc_model_fuzz_documents'] = nf
             for v in doccorr.compare(lib, items, stats):
                 violations.append(v)
     except Exception:
